@@ -1,0 +1,24 @@
+//go:build verif
+
+package dhcpv6
+
+// Verification hooks for property C09. Accessors and injection points only (-tags verif).
+
+import "net"
+
+// VerifC09SetConn installs the UDP socket used by sendResponse (Start is not called by the harness).
+func (s *Server) VerifC09SetConn(c *net.UDPConn) { s.conn = c }
+
+// VerifC09HandleDatagram runs the body of receiveLoop for one datagram: ParseMessage, then handleMessage.
+// It reports whether the datagram parsed.
+func (s *Server) VerifC09HandleDatagram(data []byte, addr *net.UDPAddr) bool {
+	msg, err := ParseMessage(data)
+	if err != nil {
+		return false
+	}
+	s.handleMessage(msg, addr)
+	return true
+}
+
+// VerifC09ServerDUID returns the serialized server DUID.
+func (s *Server) VerifC09ServerDUID() []byte { return s.serverDUID.Serialize() }
